@@ -8,6 +8,10 @@ type declaration at most once. Known classes = classes of bad holes (bad_class, 
 import json
 import os
 import random
+import sys
+
+# type expressions nest up to 200 levels: the recursive encoders (projgen printers, vlib.sx, json) need room
+sys.setrecursionlimit(max(sys.getrecursionlimit(), 20000))
 
 from tools import vlib, projgen
 from tools.vlib import Outcome, sx
